@@ -99,6 +99,32 @@ def model_check(workdir, pid, cfgs, workers_each, timeout):
     return stats, leads
 
 
+LIVE_QUICK = [(2, 1, 1), (1, 2, 2), (1, 2, 1)]
+LIVE_THOROUGH = LIVE_QUICK + [(2, 2, 1), (1, 3, 2), (2, 2, 2), (3, 1, 2)]
+
+
+def liveness(workdir, cfgs):
+    """C12's liveness clauses on the MODEL (real executions are finite; their safety cores Quiesce / Stuck are what the
+    recordings are judged on): under weak fairness of every goroutine, no state constraint,
+      CloseReturns  (FairSpec)     Close, once started, returns                          - must hold in both modes
+      Prompt        (NoCloseSpec)  everything written is eventually delivered / reported  - must hold in polling mode; in
+                                   waiter mode it fails: that is the recorded known finding (LostWakeupSig) at model level.
+    A model-level surprise is a lead, reported in the evidence and on stderr, never a verdict."""
+    jobs = [(P, W, N, pol, spec, prop) for (P, W, N) in cfgs for pol in (False, True)
+            for (spec, prop) in (("FairSpec", "CloseReturns"), ("NoCloseSpec", "Prompt"))]
+
+    def one(j):
+        P, W, N, pol, spec, prop = j
+        cfg = "CONSTANTS\n " + constants(P, W, N, pol) + "\nSPECIFICATION %s\nPROPERTY %s\nCHECK_DEADLOCK FALSE\n" % (spec, prop)
+        r = tlc(workdir, "DiodeImpl", cfg, workers=2, timeout=1200, cfg_name="live_%s_%d%d%d%s.cfg" % (prop, P, W, N, "p" if pol else "w"))
+        holds = r.completed and not r.violated and "Temporal properties were violated" not in r.out
+        expected = not (prop == "Prompt" and not pol)
+        return {"cfg": [P, W, N, "poller" if pol else "waiter"], "property": prop, "spec": spec, "holds": holds, "expected_to_hold": expected,
+                "distinct": r.distinct, "wall": round(r.wall, 1)}
+
+    return pool_map(one, jobs, workers=NCPU // 2)
+
+
 def directed_leads(workdir, pid, regenerate):
     """Stored TLC leads (spec/diode/directed_scripts.json, produced by this very function with
     regenerate=True: `bin/check C11 --tier thorough` regenerates them on every run)."""
@@ -407,11 +433,15 @@ def check(pid, tier, seed, replay=None):
         if replay:
             rp = json.load(open(replay))
             scripts = [rp["script"]]
-            stats, leads, graphs = [], [], {}
+            stats, leads, graphs, live = [], [], {}, []
         else:
             cfgs = THOROUGH_CFGS if thorough else QUICK_CFGS
             stats, leads = model_check(mdir, pid, cfgs, workers_each=4, timeout=1500 if thorough else 300)
             log("%s: model checked %.0fs" % (pid, time.time() - t0))
+            live = liveness(mdir, LIVE_THOROUGH if thorough else LIVE_QUICK) if pid == "C12" else []
+            for x in live:
+                if x["holds"] != x["expected_to_hold"]:
+                    log("%s: MODEL-LEVEL LEAD (no verdict): %s under %s %s on %s" % (pid, x["property"], x["spec"], "holds" if x["holds"] else "fails", x["cfg"]))
             directed = directed_leads(mdir, pid, regenerate=thorough)
             log("%s: directed %.0fs" % (pid, time.time() - t0))
             nsim = 600 if thorough else 120
@@ -479,6 +509,7 @@ def check(pid, tier, seed, replay=None):
             "gate_steps_recorded": sum(len(i) for _, _, i in recs),
             "impl_conformance": conf,
             "transition_cover": tcov,
+            "model_liveness": live,
             "recordings_rejected_by_contract": len(bads),
             "rejected_owned_by_other_property": other,
             "rejected_scripts": sorted(rejected_ids)[:200],
